@@ -94,6 +94,8 @@ type C02Exch struct {
 
 type C02Case struct {
 	Config string    `json:"config"` // direct | upstream | mitm
+	// RateLimited: the listener has (very high) bandwidth limits, so every byte passes through the limiting wrapper
+	RateLimited bool `json:"rate_limited,omitempty"`
 	Exch   []C02Exch `json:"exch"`
 }
 
@@ -204,6 +206,7 @@ func genC02(t *rapid.T) C02Case {
 		x.Resp = r
 		c.Exch = append(c.Exch, x)
 	}
+	c.RateLimited = rapid.IntRange(0, 3).Draw(t, "ratelimited") == 0
 	return c
 }
 
@@ -411,6 +414,9 @@ func runC02(c C02Case) []vstat.Failure {
 func runC02once(e *c01Env, c C02Case) (fails []vstat.Failure) {
 	id := caseSeq.Add(1)
 	px := e.proxies[c.Config]
+	if c.RateLimited {
+		px = e.proxies[c.Config+"-rl"]
+	}
 	key := func(clause string) string { return "C02:" + c.Config + ":" + clause }
 	host := map[string]string{"direct": e.origin.Addr, "upstream": "origin.test:8080", "mitm": e.torigin.Addr}[c.Config]
 
@@ -761,6 +767,9 @@ func compareC02(c C02Case, i int, x C02Exch, built builtResp, m *Msg, vid string
 
 func classifyC02(c C02Case) (bool, string, []string) {
 	cls := []string{"config-" + c.Config, fmt.Sprintf("exch=%d", len(c.Exch))}
+	if c.RateLimited {
+		cls = append(cls, "listener-with-bandwidth-limits")
+	}
 	nt := false
 	earlier := false
 	var shape []string
